@@ -55,6 +55,12 @@ impl LdapMsgActor {
     ) -> anyhow::Result<LdapMsgResult> {
         match msg {
             LdapMsgReq::Bind(bind_req) => {
+                // RFC 4513 5.1.2: a simple bind with a DN and an empty password is an
+                // "unauthenticated bind"; servers answer it with success without checking
+                // anything, so it must never be used to authenticate a user
+                if bind_req.user_name.is_empty() || bind_req.password.is_empty() {
+                    return Err(anyhow::anyhow!("ldap user name or password is empty"));
+                }
                 let bind_dn = format!(
                     "uid={},{}",
                     bind_req.user_name, &ldap_config.ldap_user_base_dn
